@@ -737,12 +737,25 @@ fn main() {
         eprintln!("transcript: corpus validation failed: {}", e);
         std::process::exit(3);
     }
-    section_generator(&mut out);
-    section_parser(&mut out);
-    section_conversions(&mut out);
-    section_scores(&mut out);
-    section_primitives(&mut out);
-    section_constructors(&mut out);
+    // a panic that escapes from the library inside a section is a result like any other: it ends that section with a
+    // PANIC line (every configuration must agree on it) and is reported by the configuration's self-check
+    let sections: [(&str, fn(&mut Out)); 6] = [
+        ("generator", section_generator),
+        ("parser", section_parser),
+        ("conversions", section_conversions),
+        ("scores", section_scores),
+        ("primitives", section_primitives),
+        ("constructors", section_constructors),
+    ];
+    for (name, f) in sections {
+        let r = std::panic::catch_unwind(std::panic::AssertUnwindSafe(|| f(&mut out)));
+        if let Err(e) = r {
+            let msg = e.downcast_ref::<&str>().map(|s| s.to_string()).or_else(|| e.downcast_ref::<String>().cloned()).unwrap_or_else(|| "panic".into());
+            let done = out.sections.last().map(|s| s.1.len()).unwrap_or(0);
+            out.line(format!("SECTION PANIC after {} lines", done));
+            out.bad(format!("section {} panicked after {} lines: {}", name, done, msg));
+        }
+    }
     if args.len() == 2 && args[0] == "--dump" {
         for (name, lines) in &out.sections {
             if name == &args[1] {
